@@ -1012,6 +1012,50 @@ fn dispatch<C: CI>(op: Op, a: &[&[u8]]) -> R<Vec<Vec<u8>>> {
             let o: Option<SecretKey<C>> = SecretKey::<C>::from_le_bytes(&b).into();
             Ok(ctopt(o.map(|v| Vec::from(&v))))
         }
+        Op::MemLayout => Ok(vec![
+            (core::mem::size_of::<Signature<C>>() as u64).to_le_bytes().to_vec(),
+            (core::mem::size_of::<PublicKey<C>>() as u64).to_le_bytes().to_vec(),
+            (core::mem::size_of::<(<C as Pairing>::PublicKey, Vec<u8>)>() as u64).to_le_bytes().to_vec(),
+        ]),
+        Op::AggVerifyReentrant => {
+            // a caller that checks each signer's proof of possession lazily, inside the iterator it hands to the
+            // aggregate verifier: library calls nested in a library call
+            let agg = AggregateSignature::<C>::try_from(arg(a, 0)?).map_err(e)?;
+            let mut entries: Vec<(PublicKey<C>, Vec<u8>, ProofOfPossession<C>)> = Vec::new();
+            let mut i = 2;
+            while i + 2 < a.len() {
+                entries.push((PublicKey::<C>::try_from(a[i]).map_err(e)?, a[i + 1].to_vec(), ProofOfPossession::<C>::try_from(a[i + 2]).map_err(e)?));
+                i += 3;
+            }
+            let verdicts = std::cell::RefCell::new(Vec::<u8>::new());
+            let it = entries.iter().map(|(pk, m, pop)| {
+                verdicts.borrow_mut().push(pop.verify(*pk).is_ok() as u8);
+                (pk.0, m.clone())
+            });
+            let r = match agg {
+                AggregateSignature::Basic(s) => <C as BlsSignatureBasic>::aggregate_verify(it, s),
+                AggregateSignature::MessageAugmentation(s) => <C as BlsSignatureMessageAugmentation>::aggregate_verify(it, s),
+                AggregateSignature::ProofOfPossession(s) => <C as BlsSignaturePop>::aggregate_verify(it, s),
+            };
+            let v = verdicts.into_inner();
+            match r {
+                Ok(()) => Ok(vec![v]),
+                Err(x) => Err(format!("{} | nested verdicts {:?}", e(x), v)),
+            }
+        }
+        Op::EgEncryptProofBlinder => {
+            let pk = PublicKey::<C>::try_from(arg(a, 0)?).map_err(e)?;
+            let m = sk_lenient::<C>(arg(a, 1)?)?;
+            let b = sk_lenient::<C>(arg(a, 2)?)?;
+            let (c1, c2, message_proof, blinder_proof, challenge) = <C as BlsElGamal>::seal_scalar_with_proof(pk.0, m.0, None, Some(b.0), own_rng()).map_err(e)?;
+            Ok(vec![Vec::from(&ElGamalProof::<C> { ciphertext: ElGamalCiphertext { c1, c2 }, message_proof, blinder_proof, challenge })])
+        }
+        Op::MultiSigVerifyKeys => {
+            let ms = MultiSignature::<C>::try_from(arg(a, 0)?).map_err(e)?;
+            let pks = many(a, 2, |b| PublicKey::<C>::try_from(b).map_err(e))?;
+            <C as BlsSignaturePop>::multi_sig_verify(pks.iter().map(|k| k.0), *ms.as_raw_value(), arg(a, 1)?).map_err(e)?;
+            Ok(vec![])
+        }
         Op::SchemeFrom => {
             let b = arg(a, 0)?;
             let s = if b.len() == 1 {
